@@ -1424,15 +1424,16 @@ func main() {
 					head = 430
 				}
 				var lens []int
+				firstPrim := si == 0 || (sc.fam == "random" && v == 0)
 				switch {
 				case cfg.Thorough() && sc.prim:
 					lens = allLens()
 				case cfg.Thorough():
 					lens = headLens(head, 41)
-				case sc.prim && v == 0:
+				case firstPrim && v == 0:
 					lens = allLens()
 				default:
-					lens = sparseLens(head, 3, 211, si+v)
+					lens = sparseLens(head, 5, 397, si+v)
 				}
 				b, ents, now := scenario(p.id, sc.fam, v, cfg.Seed)
 				gid++
